@@ -40,7 +40,10 @@ FileOf(shape, wideSet) ==
    sumChans |-> 2, sumSchemas |-> 0, nschemas |-> 0, tmax |-> TMAXr]
 
 (* ------------------------------------------------------------- reads *)
-TopicSets == {<<>>, <<"a">>, <<"b">>}
+TopicSets == {<<>>, <<"a">>, <<"b">>}        \* Chans, TopicSets and Windows are overridden in the "span" configurations
+TopicSets_none == {<<>>}
+Windows_none == {[hasS |-> FALSE, s |-> 0, hasE |-> FALSE, e |-> 0]}
+Chans_one == {0}
 Windows == {[hasS |-> FALSE, s |-> 0, hasE |-> FALSE, e |-> 0]}
            \cup {[hasS |-> TRUE, s |-> a, hasE |-> TRUE, e |-> b] : a \in Times, b \in Times \cup {TMAXr}}
 ReadOf(order, topics, win) == [mode |-> "index", order |-> order, hasT |-> topics # <<>>, topics |-> topics] @@ win
